@@ -75,7 +75,11 @@ class Parser:
       contentmsg = "Content: {}\n".format(string)
       datatypemsg = "Datatype: {}\n".format(datatype)
       errmsg = err.message if hasattr(err, "message") else str(err)
-      raise err.__class__(
+      # errors of the library keep their class; anything else raised while
+      # decoding (e.g. by int(), json.loads()) means that the format is wrong
+      errclass = err.__class__ if isinstance(err, gfapy.Error) \
+                 else gfapy.FormatError
+      raise errclass(
             linemsg +
             fieldnamemsg +
             datatypemsg +
